@@ -10,6 +10,31 @@ pub use tinylfu::TinyLFU;
 mod wtinylfu;
 pub use wtinylfu::{WTinyLFUCache, WTinyLFUCacheBuilder};
 
+/// Verification hooks (feature `verif-hooks`): these public types live in private modules
+/// and cannot otherwise be named by a client of the crate.
+#[cfg(feature = "verif-hooks")]
+pub use tinylfu::{TinyLFUBuilder, TinyLFUError};
+#[cfg(feature = "verif-hooks")]
+pub use wtinylfu::WTinyLFUError;
+
+#[cfg(all(feature = "verif-hooks", feature = "std"))]
+std::thread_local! {
+    static VERIF_SKETCH_SEED: core::cell::Cell<Option<u64>> = const { core::cell::Cell::new(None) };
+}
+
+/// Verification hook (feature `verif-hooks`): pin the seed the std count-min sketch derives
+/// its row seeds from, for sketches constructed *afterwards on this thread*. `None` restores
+/// the clock-derived seed.
+#[cfg(all(feature = "verif-hooks", feature = "std"))]
+pub fn verif_pin_sketch_seed(seed: Option<u64>) {
+    VERIF_SKETCH_SEED.with(|s| s.set(seed));
+}
+
+#[cfg(all(feature = "verif-hooks", feature = "std"))]
+pub(crate) fn verif_pinned_sketch_seed() -> Option<u64> {
+    VERIF_SKETCH_SEED.with(|s| s.get())
+}
+
 use crate::DefaultHashBuilder;
 use core::borrow::Borrow;
 use core::hash::{BuildHasher, Hash, Hasher};
